@@ -268,6 +268,15 @@ def build_ocaml(name, extract_v, driver_ml, modname, includes=()):
     if os.path.exists(exe) and os.path.exists(stamp) and open(stamp).read() == h.hexdigest():
         return True, exe, "cached"
     with Lock("ocaml-" + name):
+        # the libraries the extraction file requires must be consistent with each other: (re)build them through make
+        # (a library compiled against an older version of one of its dependencies makes coqc refuse the Require)
+        req = []
+        for m in re.finditer(r"From Sylt Require (?:Import|Export)?\s*([^.]*(?:\.[A-Za-z][^.]*)*?)\.\s*\n",
+                             open(os.path.join(COQ, "Extract", extract_v)).read()):
+            req += m.group(1).split()
+        targets = sorted(set(m.replace(".", "/") + ".vo" for m in req if os.path.exists(os.path.join(COQ, m.replace(".", "/") + ".v"))))
+        if targets:
+            coq_make(targets)
         rc, out = run(["timeout", "600", "coqc", "-Q", COQ, "Sylt", os.path.join(COQ, "Extract", extract_v)],
                       cwd=out_dir, timeout=660)
         if rc != 0:
